@@ -85,3 +85,115 @@ Section Readers.
     rewrite scan_all_sections_np by assumption. reflexivity.
   Qed.
 End Readers.
+
+(* ---- the root module's reader (encoding/binary varints, bufio, CidFromReader on the section) ------- *)
+Ltac Zify.zify_post_hook ::= Z.div_mod_to_equations.
+
+Lemma read_std_put_gen : forall fuel rf n i x rest,
+  (S fuel <= rf)%nat -> n < 128 ^ N.of_nat (S fuel) -> N.of_nat (S fuel) + i <= 9 ->
+  read_uv_std_f rf i x (put_uv_f (S fuel) n ++ rest)
+  = VOk (x + n * 2 ^ (7 * i)) rest (i + uv_size_f (S fuel) n).
+Proof.
+  induction fuel as [|f IH]; intros rf n i x rest Hrf Hn Hi;
+    (destruct rf as [|rf']; [lia|]); cbn [put_uv_f]; rewrite (uv_size_f_S _ n); destruct (n <? 128) eqn:E.
+  - cbn [app read_uv_std_f]. rewrite b2n_n2b by lia. rewrite E.
+    replace ((i =? 9) && (1 <? n)) with false by lia. reflexivity.
+  - change (128 ^ N.of_nat 1) with 128 in Hn. lia.
+  - cbn [app read_uv_std_f]. rewrite b2n_n2b by lia. rewrite E.
+    replace ((i =? 9) && (1 <? n)) with false by lia. reflexivity.
+  - cbn [app read_uv_std_f].
+    assert (Hm : n mod 128 < 128) by (apply N.mod_lt; lia).
+    rewrite b2n_n2b by lia.
+    replace (128 + n mod 128 <? 128) with false by lia.
+    replace (i =? 9) with false by lia.
+    assert (Hdiv : n / 128 < 128 ^ N.of_nat (S f)).
+    { rewrite pow128_succ in Hn. apply N.div_lt_upper_bound; lia. }
+    rewrite (IH rf' (n / 128) (i + 1) _ rest); try lia.
+    f_equal; [|lia].
+    replace (7 * (i + 1)) with (7 * i + 7) by lia. rewrite N.pow_add_r.
+    change (2 ^ 7) with 128.
+    pose proof (N.div_mod n 128).
+    replace (128 + n mod 128 - 128) with (n mod 128) by lia. nia.
+Qed.
+
+Theorem read_uv_std_put_uv n rest : n < two63 ->
+  read_uv_std (put_uv n ++ rest) = VOk n rest (uv_size n).
+Proof.
+  intros Hn. unfold read_uv_std, put_uv, uv_size.
+  assert (H9 : n < 128 ^ N.of_nat 9) by (unfold two63 in Hn; change (128 ^ N.of_nat 9) with 9223372036854775808; lia).
+  rewrite (put_uv_f_fuel 8 10 n) by (try lia; exact H9).
+  rewrite (uv_size_f_fuel 8 10 n) by (try lia; exact H9).
+  rewrite (read_std_put_gen 8 11 n 0 0 rest); try lia; try exact H9.
+  f_equal. cbn. lia.
+Qed.
+
+Lemma ld_read_root_ld payload rest :
+  blen payload <= root_max_section ->
+  ld_read_root (ld payload ++ rest) = Ok (payload, rest).
+Proof.
+  intros Hmax. unfold ld_read_root, ld. rewrite <- app_assoc.
+  destruct (put_uv (blen payload) ++ payload ++ rest) as [|b0 t0] eqn:E.
+  - exfalso. pose proof (put_uv_nonempty (blen payload)) as Hne.
+    destruct (put_uv (blen payload)); [congruence|discriminate].
+  - rewrite <- E. clear E.
+    assert (H63 : blen payload < two63) by (unfold root_max_section, two63 in *; lia).
+    rewrite read_uv_std_put_uv by exact H63.
+    unfold wrap64. rewrite N.mod_small by (unfold two63, two64 in *; lia).
+    replace (root_max_section <? blen payload) with false by lia.
+    replace (blen (payload ++ rest) <? blen payload) with false by (rewrite blen_app; lia).
+    rewrite take_app, drop_app. reflexivity.
+Qed.
+
+(* a block the root reader accepts *)
+Definition root_block_ok (b : block) : Prop :=
+  exists p, cid_ok p /\ fst b = cid_enc p /\ blen (c_digest p) <= max_digest_alloc /\
+            blen (fst b) + blen (snd b) <= root_max_section.
+
+Lemma read_node_root_section c d rest :
+  root_block_ok (c, d) ->
+  exists p, cid_parse c = Some p /\ read_node_root (enc_section c d ++ rest) = Ok (c, p, d, rest).
+Proof.
+  intros (p & Hp & Hc & Hcap & Hmax). cbn [fst snd] in *. exists p. split; [rewrite Hc; apply cid_parse_enc; exact Hp|].
+  unfold read_node_root. rewrite enc_section_ld, ld_read_root_ld by (rewrite blen_app; exact Hmax).
+  rewrite Hc. rewrite (cid_from_reader_enc p d Hp Hcap). reflexivity.
+Qed.
+
+Section RootReader.
+  Variable hok : bytes -> bytes -> option bool.
+  Variable hdrdec : bytes -> option (list bytes * N).
+
+  Lemma next_block_root_section c d rest :
+    root_block_ok (c, d) -> hash_good hok (c, d) ->
+    next_block_root hok (enc_section c d ++ rest) = Ok ((c, d), rest).
+  Proof.
+    intros Hb Hh. destruct (read_node_root_section c d rest Hb) as (p & Hp & Hr).
+    unfold next_block_root. rewrite Hr. unfold verify. pose proof (Hh p Hp) as X. cbn [fst snd] in X. rewrite X. reflexivity.
+  Qed.
+
+  Lemma scan_blocks_root_sections bs :
+    Forall root_block_ok bs -> Forall (hash_good hok) bs ->
+    forall fuel acc, (length bs < fuel)%nat ->
+    scan_blocks_root hok fuel (enc_sections bs) acc = mkscan (rev acc ++ bs) EEof.
+  Proof.
+    intros Hok Hh. induction bs as [|[c d] bs IH]; intros fuel acc Hf.
+    - destruct fuel; [cbn in Hf; lia|]. cbn. rewrite app_nil_r. reflexivity.
+    - destruct fuel; [cbn in Hf; lia|]. cbn [scan_blocks_root].
+      rewrite enc_sections_cons. cbn [fst snd].
+      rewrite next_block_root_section; [|exact (Forall_inv Hok)|exact (Forall_inv Hh)].
+      rewrite IH; [|exact (Forall_inv_tail Hok)|exact (Forall_inv_tail Hh)|cbn in Hf; lia].
+      cbn [rev]. rewrite <- app_assoc. reflexivity.
+  Qed.
+
+  (* root-module car.NewCarReader + Next loop (also what car.LoadCar stores, in order) *)
+  Theorem root_read_all_v1 roots bs :
+    hdr_good hdrdec roots -> blen (enc_header (Some roots) 1) <= root_max_section -> roots <> [] ->
+    Forall root_block_ok bs -> Forall (hash_good hok) bs ->
+    root_read_all hok hdrdec (enc_payload roots bs) = Ok (roots, mkscan bs EEof).
+  Proof.
+    intros Hg Hmax Hne Hok Hh. unfold root_read_all, read_header_root, enc_payload.
+    rewrite ld_read_root_ld by exact Hmax. rewrite Hg. cbn [N.eqb Pos.eqb negb].
+    destruct roots as [|r rs]; [congruence|].
+    unfold scan_all_root. rewrite scan_blocks_root_sections; try assumption; [reflexivity|].
+    pose proof (enc_sections_length hok hdrdec bs). lia.
+  Qed.
+End RootReader.
